@@ -1,6 +1,5 @@
 //! C11 — distances and paths between terms are valid walks of minimal length.
 
-use crate::build::{via_builder, Finish};
 use crate::gen::{self, GenCfg};
 use crate::model::*;
 use crate::observe::guarded;
@@ -14,10 +13,15 @@ use serde_json::{json, Value};
 pub struct C11;
 
 pub fn check(f: &Facts, stats: &mut Stats) -> CheckResult {
-    let ont = match via_builder(f, Finish::Minimal) {
+    let (ont, via) = match super::common::build_auto(f) {
         Ok(o) => o,
-        Err(e) => return fail("construct/builder", e),
+        Err(e) => return fail("construct", e),
     };
+    stats.count(&format!("path:{via}"), 1);
+    if f.terms.iter().any(|t| t.obsolete) {
+        stats.label("obsolete-terms");
+    }
+    // (the Builder API ignores flags; with own v3 bytes they are present)
     let m = Model::new(f);
     let up: Vec<_> = m.ids.iter().map(|i| m.up_dist(*i)).collect();
     let mut shortcut = false;
@@ -128,7 +132,12 @@ pub fn check(f: &Facts, stats: &mut Stats) -> CheckResult {
 
 fn strategy(tier: Tier) -> proptest::strategy::BoxedStrategy<Facts> {
     let max = if tier == Tier::Quick { 16 } else { 22 };
-    gen::facts(GenCfg::small().terms(1, max).recs(0))
+    use proptest::prelude::*;
+    prop_oneof![
+        2 => gen::facts(GenCfg::small().terms(1, max).recs(0)),
+        1 => gen::facts(GenCfg::small().terms(2, max).recs(0).standard().with_flags(true).names(crate::gen::NameMode::Capped)),
+    ]
+    .boxed()
 }
 
 impl Property for C11 {
@@ -136,7 +145,7 @@ impl Property for C11 {
         "C11"
     }
     fn rule(&self) -> String {
-        "Generated: acyclic graphs weighted toward chains with shortcuts to a much higher ancestor, diamond ladders (ties), several roots and detached terms (<=16 terms quick / 22 thorough); ALL ordered pairs. Oracle: upward BFS distances u(x,c) on the facts; distance_to_ancestor = u or None; path_to_ancestor is a chain of parent links of exactly that length ending in the ancestor; distance_to_term = min over common ancestors (terms included) of u(a,c)+u(b,c), symmetric, None iff no common ancestor; for a != b path_to_term exists iff the distance does, every step is a parent or child link, it ends in b and has exactly distance steps (validity predicate: ties admit several paths); Distance similarity = 1/(d+1) or 0. evaluations = ordered pairs. Non-trivial = graph with a pair where one term is an ancestor of the other but a strictly shorter route exists over a higher common ancestor, or a tie between two routes; distinct by canonical facts.".into()
+        "Generated: acyclic graphs (Builder, or own v3 bytes with obsolete / replaced terms) weighted toward chains with shortcuts to a much higher ancestor, diamond ladders (ties), several roots and detached terms (<=16 terms quick / 22 thorough); ALL ordered pairs. Oracle: upward BFS distances u(x,c) on the facts; distance_to_ancestor = u or None; path_to_ancestor is a chain of parent links of exactly that length ending in the ancestor; distance_to_term = min over common ancestors (terms included) of u(a,c)+u(b,c), symmetric, None iff no common ancestor; for a != b path_to_term exists iff the distance does, every step is a parent or child link, it ends in b and has exactly distance steps (validity predicate: ties admit several paths); Distance similarity = 1/(d+1) or 0. evaluations = ordered pairs. Non-trivial = graph with a pair where one term is an ancestor of the other but a strictly shorter route exists over a higher common ancestor, or a tie between two routes; distinct by canonical facts.".into()
     }
     fn assumptions(&self) -> Vec<String> {
         vec!["is_a graph acyclic; path_to_term(a,a) (documented to return [a]) is outside the property and not checked".into()]
@@ -148,7 +157,7 @@ impl Property for C11 {
         }
     }
     fn required_labels(&self, _tier: Tier) -> Vec<&'static str> {
-        vec!["nontrivial", "shorter-route-over-higher-ancestor", "tie", "no-common-ancestor", "diamond"]
+        vec!["nontrivial", "obsolete-terms", "shorter-route-over-higher-ancestor", "tie", "no-common-ancestor", "diamond"]
     }
     fn run_generated(&self, tier: Tier, seed: u64, n: u64, stats: &mut Stats) -> Option<(Value, Failure)> {
         run_typed(strategy(tier), seed, n, stats, check)
